@@ -34,7 +34,8 @@ def gen_case(rng):
         payload = bytes(rng.randrange(256) for _ in range(rng.choice([1000, 3000])))
     rest = bytes(rng.randrange(256) for _ in range(rng.choice([0, 0, 3, 20])))
     return {'id': rid, 'payload': list(payload), 'rest': list(rest),
-            'chunks': rng.choice([1, 2, 3, 7, 1000]), 'seed': rng.randrange(10 ** 6)}
+            'chunks': rng.choice([1, 2, 3, 7, 1000]), 'seed': rng.randrange(10 ** 6),
+            'stall': len(payload) > 0 and rng.random() < 0.03}
 
 
 class FakeWriter:
@@ -58,17 +59,34 @@ async def run_frame_case(case):
     reader = asyncio.StreamReader()
     rng = random.Random(case['seed'])
 
+    hdr_end = wire.index(b'\n') + 1
+    stall_at = hdr_end + (len(wire) - hdr_end) // 2 if case.get('stall') else None
+
     async def feed():
         pos = 0
         while pos < len(stream):
             n = rng.randrange(1, max(2, case['chunks'] + 1))
+            if stall_at is not None and pos <= stall_at < pos + n:
+                n = max(1, stall_at - pos)
+                reader.feed_data(stream[pos:pos + n])
+                pos += n
+                await asyncio.sleep(0.25)      # the rest of the payload arrives late (slow peer / busy sender loop)
+                continue
             reader.feed_data(stream[pos:pos + n])
             pos += n
             await asyncio.sleep(0)
         reader.feed_eof()
 
     ft = asyncio.ensure_future(feed())
-    rid, data = await msock.read_record(reader, timeout=5)
+    # read the way SocketServer / SocketClient do: poll with a short timeout and retry
+    for _ in range(200):
+        try:
+            rid, data = await msock.read_record(reader, timeout=0.1)
+            break
+        except asyncio.TimeoutError:
+            continue
+    else:
+        raise RuntimeError('record never arrived')
     await ft
     left = await reader.read()
     return {'wire': list(wire), 'rid': rid, 'data': list(data), 'left': len(left), 'left_ok': left == bytes(case['rest'])}
@@ -101,6 +119,18 @@ async def run_pickle_case(rng):
 
 # ---- sampled loopback runs: multiplexing over connections with reordering latencies ---------
 
+class SlowPickle:
+    """pickling this object takes 0.3 s: it keeps the client's event loop busy while another, partly written, large
+    request is in flight on another connection"""
+
+    def __init__(self, tag):
+        self.tag = tag
+
+    def __reduce__(self):
+        time.sleep(0.3)
+        return (SlowPickle, (self.tag,))
+
+
 def run_mux_case(seed, n_requests=24, connections=3):
     """real SocketServer (in a thread) + SocketClient over a unix socket; handler latency chosen per
     request so that responses are produced out of request order; every response must be the handler's
@@ -113,6 +143,8 @@ def run_mux_case(seed, n_requests=24, connections=3):
     payloads = {i: (i, bytes(rng.randrange(256) for _ in range(rng.choice([0, 5, 300, 70000 if i % 11 == 0 else 9])))) for i in range(n_requests)}
 
     async def echo(data):
+        if isinstance(data, SlowPickle):
+            return ('slow', data.tag)
         i, blob = data
         await asyncio.sleep(lat[i])
         if i % 7 == 6:
@@ -149,6 +181,12 @@ def run_mux_case(seed, n_requests=24, connections=3):
                         problems.append(f'request {i}: expected its own ValueError({i}), got {r!r:.80}')
                 elif r != want:
                     problems.append(f'request {i}: response {r!r:.80} is not the handler\'s result for its payload')
+            # a large request in flight while the sender's loop is busy pickling another one
+            big = (0, bytes(rng.randrange(256) for _ in range(1000)) * 6000)
+            outs = list(client.stream('/echo', [big, SlowPickle(7), big], response_timeout=20))
+            wantb = (0, len(big[1]), big[1][:8], sum(big[1]) % 65521)
+            if outs != [wantb, ('slow', 7), wantb]:
+                problems.append(f'large request + slow-pickling request: got {outs!r:.120}')
             # stream preserves order
             xs = [payloads[i] for i in range(n_requests) if i % 7 != 6]
             ys = list(client.stream('/echo', xs, response_timeout=30))
